@@ -19,7 +19,17 @@ Definition C03_statement : Prop :=
      send_data c (Tree true j) = ([Write (frame (dumps j))], RetNone) /\
      frame (dumps j) = utf8_enc_all (header (len (utf8_enc_all (dumps j))) ++ dumps j) /\
      spec_decode (frame (dumps j)) = Some [utf8_enc_all (dumps j)]) /\
-  (* every public sending call: one whole frame per message it emits, nothing else *)
+  (* every public sending call: one whole frame per message it emits, nothing else.
+     The tree written is the one THIS protocol instance's own serialiser (its converter, through
+     _serialize_message) yields for the message: `send` carries that tree, and nothing in the model is
+     shared between protocol instances - no encoder, converter or rendering cached on the class.  The
+     correspondence run checks exactly this with several instances in one process whose converters
+     render the same payload classes differently, in both sending orders (case kind "multi").
+     Clause (v) below is about BLOCKING transports, and is observed for every way pygls itself installs
+     one (start_io -> run_async, the synchronous / WASM entry, pygls.io_.run); for the non-blocking
+     writers pygls installs (the StreamWriter of start_tcp, the child's stdin pipe of
+     JsonRPCClient.start_io) what is promised and observed is weaker: a frame handed over on the loop
+     thread goes out whole, in order, without needing further traffic to push it. *)
   (forall c s, framed c = true -> do_send c s = map wr (sent_trees s)) /\
   (* (ii) frames self-delimit whatever the bodies contain; so for every list of sending calls the
      decoder returns exactly the bodies, in order *)
